@@ -32,6 +32,7 @@ REQ_FOLLOWS = part('req_follows', False)   # responder roles: the request itself
 RESP_NO_PUB = part('resp_no_pub', False)   # channel responder: the handler returns (None, subscriber)
 REQ_COMPLETE = part('req_complete', False) # channel responder: the REQUEST_CHANNEL carries COMPLETE (requester has no publisher)
 EARLY_FIRST = part('early_first', False)   # the first event happens in the same loop slice as the opening of the interaction (its frames still queued)
+NEIGHBOUR_RAISES = part('neighbour_raises', False)   # an earlier-registered peer stream whose publisher's cancel() raises when the connection ends
 PROBE_REUSE = part('probe_reuse', False)   # C10: after termination a new request on the same id must be accepted
 
 # event kinds
@@ -69,6 +70,8 @@ class _Handler(BaseRequestHandler):
         return f
 
     async def request_stream(self, payload):
+        if payload.data == b'neighbour':
+            return RecPub(raise_on_cancel=True)
         p = RecPub()
         self.pubs[len(self.pubs)] = p
         return p
@@ -126,6 +129,10 @@ def run_history(ev, fa, fb, fc, n):
         o.h = h
         o.sub = o.fut = o.pub = o.rsub = None
         o.init_error = None
+        if NEIGHBOUR_RAISES:
+            # registered before the interaction under test: the endpoint meets it first when it ends all streams
+            t.feed_wire(to_request_stream_frame(2 if requester else 9, Payload(b'neighbour'), initial_request_n=1))
+            loop.run_ready()
         # ---- open the interaction under test (stream SID) and a bystander request-response (stream BY)
         if role == 'rr_req':
             o.fut = ep.request_response(_local_payload(0))
